@@ -28,7 +28,7 @@ META = {
             "has a heap below 2^63 cells, a well-formed erased heap with allocated roots (WFHeap/RootsOk: T03.3 proves each "
             "heap operation preserves it, the lifting to run_one is assumed), kind disciplines Plain (no heap cell holds a "
             "bare LexicalEnvPtr/InstructionPointer, global slots are pointers or address-free, continuation objects hold "
-            "stack[0..=sp]) and NoIofArg, and bp-relative stack reads at or below sp. The concrete instantiation is tied to "
+            "stack[0..=sp]) and NoIofArg, and bp-relative stack reads at or below sp. ROUND 4: gc_unobservable / gc_unobservable_value / gc_unobservable_value_eval state T03.5 WITHOUT Safe: Safe is a theorem (Lemmas/GoodMain.safe_of_good) from GoodI of the INITIAL state, by good_step (run_one_preserves_wf: WFHeap/RootsOk of the erased heap, T03.3, lifted to all 16 opcodes through the erasure commutation of the concrete allocator, Lemmas/GoodAlloc.lean; Plain; NoIofArg and the MOV/MOVIMM code discipline of every lambda object; environment discipline) and good_gc (run_gc_preserves_good). Remaining explicit hypotheses: ExtLaws, ExtGood (unmodelled parameters), CompGood (compiler in prepare_eval), SizeBounded (every reachable heap <= 2^62 cells: the one size hypothesis, a physical fact), StackDiscAlong (frame discipline of the current instruction; follows from WF-stack once the verifier types bp-relative sources and temporaries, not yet connected). Finding of the invariant proof: Plain/WFHeap are NOT preserved by run_one over arbitrary bytecode (a MOV through a Ptr operand can overwrite a symbol cell or load an inline pair into a global; CONS can pop a frame-header cell) - on the model and the real VM alike (hand-assembled program 0 of the concrete-heap-step stream does it: witness corpus/C03/simstep-plain-not-invariant-mov-ptr-glob.txt, two consecutive real states around MOV Ptr(closure) GlobalEnvSlot, simgood ok before / bad plain-globals after, model = real on all 53 steps of that program, `simstep witness`); compiled code never does, which is the code discipline clause of GoodI, evaluated on every lambda object of every real state by the safe-side-conditions stream (hand-assembled code, marked +syn, is exempt from that one clause). The stream now also evaluates acc-value, env-ok and the value-read clauses of StackDisc. The concrete instantiation is tied to "
             "the code by the concrete-heap-step stream, and the per-state clauses of Safe are evaluated on the same real states "
             "by the safe-side-conditions stream (executable counterparts, all satisfied); model limits found there: an inline Rc payload (the Vector left in "
             "acc by VPUSH) stored back by CONS is by-value in the model (bucket alias), out-of-range operands panic in Rust "
@@ -48,7 +48,7 @@ META = {
                  "heap snapshots and API sequences + schedule exploration on the implementation",
 }
 MODULE = "Marwood.Proofs.C03"
-THEOREMS = ["Marwood.Proofs.C03." + t for t in ['mark_computes_reachable', 'mark_fuel_adequate', 'runGc_fuel_adequate', 'runGc_preserves_reachable', 'runGc_skipped_id', 'runGc_preserves_observation', 'new_wf', 'alloc_preserves_wf', 'put_preserves_wf', 'maybePut_preserves_wf', 'free_preserves_wf', 'grow_preserves_wf', 'mark_preserves_wfcore', 'runGc_preserves_wf', 'witness_ok', 'unfixed_marker_breaks_wf', 'fixed_marker_keeps_wf', 'unfixed_marker_allocates_cell_twice', 'fixed_marker_allocates_each_cell_once', 'runSched_pureN', 'gc_unobservable_partial', 'gc_unobservable_value_partial', 'demo_sim', 'sHalt_safe']] + ["Marwood.Lemmas.Sim." + t for t in ['cgc_sim', 'cput_sim', 'putNew_sim', 'step_sim', 'execSim_all', 'activationLaw', 'builtinLaw_of_ext', 'sim_refl', 'readObs_rel', 'eq_agree']]
+THEOREMS = ["Marwood.Proofs.C03." + t for t in ['mark_computes_reachable', 'mark_fuel_adequate', 'runGc_fuel_adequate', 'runGc_preserves_reachable', 'runGc_skipped_id', 'runGc_preserves_observation', 'new_wf', 'alloc_preserves_wf', 'put_preserves_wf', 'maybePut_preserves_wf', 'free_preserves_wf', 'grow_preserves_wf', 'mark_preserves_wfcore', 'runGc_preserves_wf', 'witness_ok', 'unfixed_marker_breaks_wf', 'fixed_marker_keeps_wf', 'unfixed_marker_allocates_cell_twice', 'fixed_marker_allocates_each_cell_once', 'runSched_pureN', 'gc_unobservable_partial', 'gc_unobservable_value_partial', 'demo_sim', 'sHalt_safe', 'run_one_preserves_wf', 'run_gc_preserves_good', 'gc_unobservable', 'gc_unobservable_value', 'gc_unobservable_value_eval']] + ["Marwood.Lemmas.Sim." + t for t in ['cgc_sim', 'cput_sim', 'putNew_sim', 'step_sim', 'execSim_all', 'activationLaw', 'builtinLaw_of_ext', 'sim_refl', 'readObs_rel', 'eq_agree']] + ["Marwood.Lemmas.Good." + t for t in ['good_step', 'good_gc', 'safe_of_good', 'goodI_reaches', 'hg_exec', 'roots_of_sim', 'prepare_goodI', 'cput_hg', 'putNew_hg', 'putV_hg', 'maybePutV_hg', 'envPut_hg', 'globPut_hg', 'makeClosure_hg', 'makeActivation_hg', 'newCont_hg', 'hg_mov', 'hg_movImm', 'hg_cons', 'hg_vpush', 'hg_closure', 'hg_varArg', 'hg_call', 'hg_tcall', 'hg_enter', 'hg_ret', 'hg_jmp', 'hg_jnt', 'hg_push', 'hg_pushImm', 'hg_pushAcc', 'hg_halt', 'Demo.sHalt_goodI', 'Demo.sHalt_sizeBounded', 'Demo.sHalt_discAlong']]
 
 
 def simstep_info(req):
